@@ -790,9 +790,7 @@ func (x *Exec) rangeIter(v Value) Value {
 			}
 			var ord []int
 			for len(liveIdx) > 1 {
-				ch := x.freshAux("maporder", 8)
-				x.Assume(x.cx.Cmp("bvult", ch, mkConst(8, uint64(len(liveIdx)))))
-				k := int(x.Concretize(ch, "map order"))
+				k := x.Choose(len(liveIdx), "map order")
 				ord = append(ord, liveIdx[k])
 				liveIdx = append(liveIdx[:k:k], liveIdx[k+1:]...)
 			}
